@@ -2451,7 +2451,12 @@ class CartesianBlock(Block):
         """
         if self.core is not None:
             indices = self.spatialLocator.getCompleteIndices()
-            if self.core.symmetry.isThroughCenterAssembly:
+            symmetry = self.core.symmetry
+            if (
+                symmetry.isThroughCenterAssembly
+                and symmetry.domain != geometry.DomainType.FULL_CORE
+            ):
+                # (a full core has no symmetry lines, whether or not an assembly sits on its center)
                 if indices[0] == 0 and indices[1] == 0:
                     # central location
                     return 4.0
